@@ -79,7 +79,7 @@ class BcWorld(World):
         kinds = simlib.SIM_MODEL[actor]
         kind = kinds[int(rng.integers(len(kinds)))]
         cfg.update(dim=dim, mesh=cands[int(rng.integers(len(cands)))], kind=kind, params=simlib.gen_model_params(kind, rng, dim),
-                   orphans=int(rng.integers(1, 4)) if rng.random() < 0.3 and actor != "HyperElastic" else 0)
+                   orphans=int(rng.integers(1, 4)) if rng.random() < 0.3 else 0)
         return cfg
 
     def __init__(self, cfg, ctx):
@@ -105,6 +105,7 @@ class BcWorld(World):
                     extra = np.array([[10.0 + i, 10.0, 0.0 if cfg["dim"] == 2 else 1.0] for i in range(cfg["orphans"])])
                     coord = np.vstack([coord, extra])
                     ctx.probe("mesh_with_orphan_nodes")
+                self._coord = coord
                 mesh = meshlib.build(raw, coord=coord)
                 self.model = simlib.make_model(cfg["kind"], cfg["params"])
                 self.sim = simlib.make_sim(self.actor, mesh, self.model)
@@ -430,7 +431,7 @@ class BcWorld(World):
         try:
             with self.ctx.sut():
                 raw = meshlib.library()[self.cfg["mesh"]]
-                s2 = simlib.make_sim(self.actor, meshlib.build(raw), simlib.make_model(self.cfg["kind"], self.cfg["params"]))
+                s2 = simlib.make_sim(self.actor, meshlib.build(raw, coord=self._coord), simlib.make_model(self.cfg["kind"], self.cfg["params"]))
                 dd, dv = np.array(self.dir_dofs, dtype=int), np.array(self.dir_vals, dtype=float)
                 known = np.unique(dd)
                 uD = np.array([dv[dd == d].sum() for d in known])
@@ -447,7 +448,7 @@ class BcWorld(World):
         """Brand-new simulation with the same (merged) conditions, started at the current state of the live one."""
         sim = self.sim
         raw = meshlib.library()[self.cfg["mesh"]]
-        s2 = simlib.make_sim(self.actor, meshlib.build(raw), simlib.make_model(self.cfg["kind"], self.cfg["params"]))
+        s2 = simlib.make_sim(self.actor, meshlib.build(raw, coord=self._coord), simlib.make_model(self.cfg["kind"], self.cfg["params"]))
         dd, dv = np.array(self.dir_dofs, dtype=int), np.array(self.dir_vals, dtype=float)
         known = np.unique(dd)
         vals = np.array([dv[dd == d].sum() for d in known])
